@@ -142,3 +142,10 @@ impl<T> SpliceVec<T> for Vec<T> { open spec fn sp_view(&self) -> Seq<T> { self@ 
     #[verifier::external_body] fn splice_v(&mut self, range: core::ops::Range<usize>, items: Vec<T>) -> (r: SpliceV<T>) { unimplemented!() } }
 // Rust guarantees that no allocation (hence no Vec) has more than isize::MAX elements/bytes
 pub axiom fn axiom_vec_len_bound<T>(v: &Vec<T>) ensures v@.len() <= isize::MAX;
+// the same guarantee, available to every arithmetic obligation without a hint (so `v.len() + 1` is never reported as a
+// possible overflow): Vec and slice lengths are at most isize::MAX
+pub mod lenax { use vstd::prelude::*;
+    pub broadcast axiom fn axiom_vec_len_bound_b<T>(v: &Vec<T>) ensures #[trigger] v@.len() <= isize::MAX as int;
+    pub broadcast axiom fn axiom_slice_len_bound_b<T>(v: &[T]) ensures #[trigger] v@.len() <= isize::MAX as int;
+}
+broadcast use {lenax::axiom_vec_len_bound_b, lenax::axiom_slice_len_bound_b};
